@@ -350,6 +350,49 @@ func genConsts() string {
 		emitInt("agent_requestCacheLimit", mustInt(env, "requestCacheLimit", rel), rel)
 		emitStr("agent_headerAuthorization", mustString(env, "headerAuthorization", rel), rel)
 	}
+	// agent: the arguments handed to a worker goroutine by the polling loop (does a worker see the polling context?)
+	{
+		rel := "agent/agent.go"
+		f := parseFile(rel)
+		fd := mustFunc(f, rel, "", "pollForNewRequests")
+		var args []string
+		found := false
+		ast.Inspect(fd, func(n ast.Node) bool {
+			if g, ok := n.(*ast.GoStmt); ok && src(g.Call.Fun) == "processOneRequest" {
+				found = true
+				for _, a := range g.Call.Args {
+					args = append(args, src(a))
+				}
+			}
+			return true
+		})
+		if !found {
+			fail("%s: pollForNewRequests no longer starts workers with `go processOneRequest(...)`", rel)
+		}
+		var q []string
+		for _, a := range args {
+			q = append(q, strconv.Quote(a))
+		}
+		fmt.Fprintf(&sb, "def agent_workerArgs : List String := [%s]  -- %s: arguments of `go processOneRequest(...)`\n", strings.Join(q, ", "), rel)
+		if len(fd.Type.Params.List) == 0 || src(fd.Type.Params.List[0].Type) != "context.Context" {
+			fail("%s: first parameter of pollForNewRequests is no longer the polling context", rel)
+		}
+		fmt.Fprintf(&sb, "def agent_pollingCtxName : String := %s  -- %s: name of the polling context parameter\n", strconv.Quote(fd.Type.Params.List[0].Names[0].Name), rel)
+		// flag defaults that the lifecycle model refers to
+		env := collectConsts(f)
+		for _, fl := range []struct{ v, lean string }{{"healthCheckUnhealthy", "agent_defaultUnhealthyThreshold"}, {"healthCheckFreq", "agent_defaultHealthCheckFreq"}} {
+			e, ok := env[fl.v]
+			ce, ok2 := e.(*ast.CallExpr)
+			if !ok || !ok2 || len(ce.Args) < 2 {
+				fail("%s: flag %s not found", rel, fl.v)
+			}
+			v, ok := evalInt(env, ce.Args[1])
+			if !ok {
+				fail("%s: default of flag %s is not an integer literal", rel, fl.v)
+			}
+			emitInt(fl.lean, v, rel+" flag default")
+		}
+	}
 	// websockets
 	{
 		rel := "agent/websockets/connection.go"
